@@ -212,6 +212,10 @@ def r09_5(ctx):
 
 def run(ctx):
     r09_1(ctx, state_recheck=False)
+    # a replacement worker's consumed-result counter is registered in the pool's table after the result handler was
+    # built: the handler must look at that table itself, or recycled replacements wait out their 30 s guard
+    from .c05 import helpers_hold_live_objects
+    helpers_hold_live_objects(ctx, 'R09.6', only=('ResultHandler.counters',), floor=1)
     r09_2(ctx)
     r09_3(ctx)
     r09_4(ctx)
